@@ -17,7 +17,7 @@ def run(ctx):
                 "box / triangle queries; non-trivial = every record (non-empty world)")
     ctx.assumptions = ["rays not in general position (VoxelSurface!GP) are only compared with the literal linear scan",
                        "ball tangency (D2 = r^2) is not decided", "curved primitives: see level_note",
-                       "profile colliders: rays whose xy-shadow passes through an outline vertex are not asked (finding D1 pending)"]
+                       "profile colliders: rays whose xy-shadow meets an outline vertex inside the z range touch a vertical edge (not general position) and are not asked"]
     ctx.build_harness()
     plan = "all:2,2,2;rand:3,3,2:%d;rand:4,3,3:%d" % ((25, 6) if quick else (400, 100))
     plan += ";extall:2,2,2;ext:3,3,2:%d;ext:4,3,3:%d" % ((25, 6) if quick else (300, 80))
@@ -27,3 +27,7 @@ def run(ctx):
                        judge="geom/VoxelJudge", timeout=3000)
     import c07_prims
     c07_prims.run(ctx)
+    # transformed colliders: every chain of transform atoms around a box collider - ray hits at the images of the
+    # original hits with the same parameter and unit outward normals, ball queries with the pulled-back radius
+    from props import C05
+    C05.chains_stage(ctx, clauses={"panic", "ray", "ball"}, label="transformed-colliders")
